@@ -361,6 +361,7 @@ def nary_text(t):
     if t['op'] == 'leaf': return 'as.%s %s' % (t['form'], ' '.join(repr(p) for p in t['params']))
     if t['op'] == 'trans': return 'trans(%s, as.constant %r)' % (nary_text(t['a']), t['X'])
     if t['op'] == 'range': return '%s%r %s' % (t['marker'], t['start'], nary_text(t['a']))
+    if t['op'] == 'chain': return '%s %s%r %s' % (nary_text(t['a']), t['marker'], t['start'], nary_text(t['b']))      # a continuing definition: A from its own start, B from `start` on
     if 'nary_args' in t: return '%s(%s)' % ({'plus': 'sum', 'product': 'product'}[t['op']], ', '.join(nary_text(a) for a in t['nary_args']))
     return '%s(%s, %s)' % ({'plus': 'sum', 'product': 'product', 'pow': 'pow'}[t['op']], nary_text(t['a']), nary_text(t['b']))
 
@@ -743,6 +744,7 @@ def oracle(case):
             if t['op'] == 'leaf': return getattr(pfm, t['form'])(*t['params'])(r)
             if t['op'] == 'trans': return mean(t['a'], r + t['X'])
             if t['op'] == 'range': return mean(t['a'], r, True) if (r > t['start'] or (r == t['start'] and t['marker'] == '>=')) else 0.0
+            if t['op'] == 'chain': return mean(t['b'], r, True) if (r > t['start'] or (r == t['start'] and t['marker'] == '>=')) else mean(t['a'], r, in_range)
             a, b = mean(t['a'], r), mean(t['b'], r)
             return a + b if t['op'] == 'plus' else (a * b if t['op'] == 'product' else a ** b)
         try: want = mean(t, r); got = f(r)
@@ -751,7 +753,7 @@ def oracle(case):
         if abs(want - got) > 1e-9 * max(1.0, abs(want)): fails.append('%s in [%s] at r = %r evaluates to %r, its pointwise meaning is %r' % (nary_text(t), case['section'], r, got, want))
         # the same pieces through the Python API
         try:
-            if '"range"' in json.dumps(t): raise ValueError('ranges are a potable notion')
+            if '"range"' in json.dumps(t) or '"chain"' in json.dumps(t): raise ValueError('ranges are a potable notion')
             api = p_c07.py_build(strip(t)); av = api(r)
             if abs(av - got) > 1e-9 * max(1.0, abs(av)): fails.append('potable gives %r, the Python API composition %r' % (got, av))
         except (OverflowError, ZeroDivisionError, ValueError): pass
@@ -791,8 +793,27 @@ def oracle(case):
         if abs(want - v) > 1e-12 * max(1.0, abs(want)): fails.append('potential %d at r = %r is %r, the formula with the parameters substituted gives %r' % (kk, r, v, want)); break
     return fails[:5]
 
+def search_corpus():
+    """fixed definitions for the violation search only (twelfth round): a CONTINUING definition (`A >s B`) as an argument of
+    sum() / product(), next to other constants -- every argument keeps its own later ranges"""
+    def leaf(form, params): return {'op': 'leaf', 'form': form, 'params': params, 'kind': 'full'}
+    def nary(op, args):
+        t = args[0]
+        for x in args[1:]: t = {'op': op, 'a': t, 'b': x, 'nary_cont': True}
+        t['nary_args'] = args
+        return t
+    def chain(a, marker, start, b): return {'op': 'chain', 'a': a, 'marker': marker, 'start': start, 'b': b}
+    trees = [
+        (nary('plus', [leaf('bornmayer', [1000.0, 0.3]), chain(leaf('constant', [1.0]), '>', 2.05, leaf('constant', [0.25])), leaf('constant', [0.5])]), (1.0, 2.05, 2.1)),
+        (nary('plus', [leaf('constant', [0.5]), leaf('bornmayer', [1000.0, 0.3]), chain(leaf('constant', [1.0]), '>=', 2.0, leaf('polynomial', [0.0, 1.0]))]), (1.0, 2.0, 3.0)),
+        (nary('product', [leaf('polynomial', [1.0, 2.0]), leaf('constant', [2.0]), chain(leaf('constant', [3.0]), '>=', 3.0, leaf('constant', [1.0]))]), (1.5, 3.0, 3.5)),
+        (nary('product', [chain(leaf('constant', [3.0]), '>', 1.5, leaf('constant', [0.5])), chain(leaf('constant', [2.0]), '>', 2.5, leaf('constant', [4.0])), leaf('polynomial', [1.0, 1.0])]), (1.0, 2.0, 3.0)),
+    ]
+    return [{'kind': 'sem', 'section': sec, 'r': r, 'ranged': True, 'tree': t} for (t, rs) in trees for r in rs for sec in ('Pair', 'EAM-Density')]
+
 def search_cases(rng, n):
     for c in corpus(): yield c
+    for c in search_corpus(): yield c
     for _ in range(n): yield gen_case(rng)
 def finding_for(case, fails): return None
 def replay_finding(f): return False
